@@ -120,3 +120,20 @@ Proof.
               Hinj Hde C tks salts t' HC Hnd Hm Hh) as (payload & ds & claims & ps & Hf & Hr & Hst).
   exists payload, ds, claims, ps. split; [rewrite (issue_fold_issuer2 E paths tks C salts Hs); assumption|]. split; assumption.
 Qed.
+
+(* the payload of the issuer fold is the blinded form of the annotated tree of the issuance *)
+Theorem issuer2_payload_blind E :
+  forall C paths tks salts t',
+    jwf C -> split_paths paths = Some tks ->
+    T1j.mark_fold (ie_hash E) (ie_enc E) Issuer2.parse_index Issuer2.parse_usize (ie_pos E) (embed C) tks salts = Some t' ->
+    exists ds, Issuer2.issue_fold E C paths salts = Ok (blind (ie_hash E) (ie_enc E) t', ds) /\
+               T2c.wf (ie_hash E) (ie_enc E) t' /\ proj (ie_hash E) (ie_enc E) Rall t' = C.
+Proof.
+  intros C paths tks salts t' HC Hs Hm.
+  destruct (issue_fold_spec (ie_hash E) (ie_enc E) Issuer2.parse_index Issuer2.parse_usize (ie_pos E) tks salts (embed C) t'
+              (wf_embed (ie_hash E) (ie_enc E) C HC) Hm)
+    as (ds & Hf & Hw' & _ & _ & _ & _ & Hproj & _).
+  rewrite (blind_embed (ie_hash E) (ie_enc E)) in Hf.
+  exists ds. split; [rewrite (issue_fold_issuer2 E paths tks C salts Hs); assumption|]. split; [assumption|].
+  rewrite Hproj. apply proj_embed.
+Qed.
